@@ -16,15 +16,23 @@ CORR_HEADER = ("From Coq Require Import ZArith QArith List String.\n"
                "From ACN Require Import Base.Num Model.EVSE Model.SimSkel Model.SimIface.\nImport ListNotations.\n"
                "Open Scope string_scope.\nOpen Scope Z_scope.\n")
 CHECK_FN = "check_c01"
-SHARD = 20
-RULE = ("1-8 stations of mixed EVSE classes (registration order != id order), optional constraints, 0-25 sessions built per "
-        "station without overlap with back-to-back reuse and simultaneous arrivals/departures each forced with probability 1/2, "
-        "optional extra RecomputeEvents, max_recompute in {None,1,2,5}, period in {1,5,15}, schedulers: empty / zero / random "
-        "valid scripted schedules / UncontrolledCharging / SortedSchedulingAlgo(FCFS) (their returned schedules are replayed to the "
-        "model); a malformed stream (unknown station, overlap, departure<=arrival, estimate<=arrival, duplicate id) compares the "
-        "exception class and the event history at the raise; distinct = distinct (stations, sessions, recomputes, max_recompute, "
-        "scheduler kind/seed); a case is skipped as ambiguous when a remaining demand is within 1e-7 of the 1e-3 threshold or the "
-        "raising event shares its (timestamp, type) with another event (heap order inside a tie group is C11's business)")
+SHARD = 19
+RULE = ("1-8 stations of mixed EVSE classes (registration order != id order; id styles: zero-padded, S-9/S-10/S-11, numeric-looking, "
+        "mixed case, falsy '' and '0'), optional constraints, 0-25 sessions built per station without overlap with back-to-back reuse and "
+        "simultaneous arrivals/departures each forced with probability 1/2 (10% lockstep sets), optional extra RecomputeEvents, "
+        "max_recompute in {None,0,1,2,3,5}, period in {0.5,1,2.5,5,7,15}, int / float / numpy-typed session fields and schedules, "
+        "schedulers: empty / zero / random valid scripted schedules / UncontrolledCharging / SortedSchedulingAlgo(FCFS) (returned "
+        "schedules are replayed to the model). Families, each compared with the model of the input alone: plain; reuse (a prelude "
+        "simulation is first run on the SAME network, EventQueue and scheduler objects); twin (a second simulator with the same "
+        "station ids / constraint names but other values is built first and run to completion inside one scheduler call); resume "
+        "(the scheduler raises Exception / BaseException subclasses at chosen calls and run() is called again); netupdate (constraints "
+        "changed in place between scheduler calls); sharedid (one session id on two stations); 15% malformed (unknown station, overlap, "
+        "departure<=arrival, estimate<=arrival, duplicate (id, station)); ~10 valid cases are re-run in a second process with another "
+        "PYTHONHASHSEED. The recording hooks also check: network.get_ev / active_station_ids, no current on a vacant station, the "
+        "event list given to EventQueue and the schedule dict returned by the scheduler are not modified, objects handed out earlier "
+        "do not change later. distinct = distinct (stations, sessions, recomputes, max_recompute, scheduler kind/seed, family, id style); "
+        "ambiguous (skipped by the model comparison, still monitored) = a remaining demand within 1e-7 of the 1e-3 threshold (incl. the "
+        "deliberate on-threshold / one-ulp sessions) or a raising plugin that shares its timestamp with another plugin (C11)")
 ASSUMPTIONS = ["the pending queue is modelled as a stably sorted list; CPython heapq order inside groups of equal (timestamp, precedence) "
                "is canonicalised on both sides (C11 proves heapq)",
                "schedulers are modelled as arbitrary functions of the view; in the correspondence the schedules returned by the real "
@@ -52,7 +60,7 @@ def case_of(inp, impl):
         S.input_coq(inp, impl), coq_opt(impl["error"], coq_str), S.hist_coq(impl["hist"]), S.occ_coq(impl["occ"]),
         z(impl["iteration"]), coq_bool(impl["qempty"])))
     fam = inp.get("family", "plain")
-    kind = ("malformed/" + inp["malformed"]) if inp["malformed"] else ("%s/%s" % ("valid" if fam == "plain" else fam, inp["sched"]["kind"]))
+    kind = ("malformed/" + inp["malformed"]) if inp["malformed"] else ("sharedid/" + inp["sched"]["kind"]) if inp.get("shared_ids") else ("%s/%s" % ("valid" if fam == "plain" else fam, inp["sched"]["kind"]))
     slim = dict(error=impl["error"], hist=impl["hist"], occ=impl["occ"], iteration=impl["iteration"], qempty=impl["qempty"],
                 final_occ=impl["final_occ"], n_calls=len(impl["calls"]), rates=impl["rates"], flags=impl.get("flags", []),
                 n_raised=impl.get("n_raised", 0))
@@ -81,7 +89,8 @@ def gen_cases(rng, n, tier):
     rng.shuffle(specs)
     cases = []
     for mal, fam in specs:
-        cases += make_cases(S.gen_input(rng, tier, malformed=mal, family=fam))
+        cases += make_cases(S.gen_input(rng, tier, malformed=mal, family=fam,
+                                        shared_ids=(mal is None and rng.random() < 0.12)))
     hash_family(rng, cases)
     return cases
 
@@ -118,7 +127,7 @@ def search(rng, budget_s, broken):
     t0 = time.time()
     fams = [None, None, None, "reuse", "twin", "resume", "netupdate"]
     while time.time() - t0 < budget_s:
-        inp = S.gen_input(rng, "quick", family=rng.choice(fams))
+        inp = S.gen_input(rng, "quick", family=rng.choice(fams), shared_ids=rng.random() < 0.3)
         impl = S.run_impl(inp)
         r = full_monitor(inp, impl)
         if r:
